@@ -141,10 +141,11 @@ func (t *traversal[S, T]) visit(ctx context.Context, eg *errgroup.Group, node *v
 			err    error
 			result T
 		)
-		if !t.skip(node) {
+		visited := !t.skip(node)
+		if visited {
 			result, err = t.visitor(ctx, node.key, *node.service)
 		}
-		t.done(node, result)
+		t.done(node, result, visited)
 		nodeCh <- node
 		return err
 	})
@@ -191,11 +192,15 @@ func (t *traversal[S, T]) enter(v *vertex[S]) bool {
 	return true
 }
 
-func (t *traversal[S, T]) done(v *vertex[S], result T) {
+// done marks the vertex as walked; the result is recorded only if the function was actually called for it
+// (vertices outside the requested selection are walked without being visited)
+func (t *traversal[S, T]) done(v *vertex[S], result T, visited bool) {
 	t.mu.Lock()
 	defer t.mu.Unlock()
 	t.status[v.key] = vertexVisited
-	t.results[v.key] = result
+	if visited {
+		t.results[v.key] = result
+	}
 }
 
 func (t *traversal[S, T]) skip(node *vertex[S]) bool {
